@@ -181,7 +181,7 @@ impl<'b, 'tx> Iterator for Cursor<'b, 'tx> {
                     }
                     let elem = self.stack.last_mut().unwrap();
                     let page_node = b.page_node(elem.id);
-                    if elem.index >= (page_node.len() - 1) {
+                    if elem.index + 1 >= page_node.len() {
                         if self.stack.len() == 1 {
                             return None;
                         }
